@@ -93,7 +93,7 @@ type sessionFn func(t triple, sid sessionID, mon *lib.Monitor) (lines, verdicts 
 
 var sessionKinds = map[string]sessionFn{
 	"triple": runSession, "tween": runTweenSession, "race": runRaceSession, "gap": runGapSession, "keyed": runKeyedSession, "masks": runMaskSession, "composite": runCompositeSession,
-	"duel": runDuelSession, "tidy": runTidySession, "stall": runStallSession, "window": runWindowSession,
+	"duel": runDuelSession, "tidy": runTidySession, "stall": runStallSession, "window": runWindowSession, "first": runFirstSession,
 }
 
 // runConfirmed runs one session against a scratch monitor. Every verdict of the stack involves time somewhere
@@ -240,6 +240,12 @@ func runChildSide(f lib.Flags, res *lib.Result, key string) {
 			// one request parked at a yield point of the write / subscribe / cancel path while another one runs
 			for q := 0; q < f.N(4, 32); q++ {
 				exec(t, sessionID{Kind: "window", Triple: t.key(), Seed: f.Seed, Seq: q, Steps: 2 + q%3})
+			}
+		}
+		// the first write after a subscription whose existence is observed on the bus (updates_only streams too)
+		if compositeShape(t) == nil {
+			for q := 0; q < f.N(4, 24); q++ {
+				exec(t, sessionID{Kind: "first", Triple: t.key(), Seed: f.Seed, Seq: q, Steps: 2 + q%2})
 			}
 		}
 		// a reader that stops reading while Updates (model-level writes for Get/Pull pairs) keep coming
